@@ -33,7 +33,15 @@ def walk_zorg_page(
     tree = parser.prog()  # type: ignore[no-untyped-call]
     compiler = ZorgFileCompiler(zorg_page, error_manager)
     walker = antlr4.ParseTreeWalker()
-    walker.walk(compiler, tree)
+    try:
+        walker.walk(compiler, tree)
+    except Exception:  # pylint: disable=broad-except
+        # The listener assumes well-formed parse tree nodes. ANTLR's error
+        # recovery can leave incomplete ones (e.g. for '[#]'), in which case
+        # the file is simply broken; anything else is a genuine bug.
+        if not error_manager.errors:
+            raise
+        zorg_page.has_errors = True
     return zorg_page
 
 
